@@ -127,6 +127,50 @@ and returns one row per registered group. -/
 def groupsOf (keyOf : ρ → κ) (rows : List ρ) : List κ :=
   firstSeen ((emit keyOf (fun _ _ => some 0) ["*"] rows).map (·.1))
 
+/-! ### Several calls on one `GroupBy` object
+
+`GroupBy.__init__` creates `self._group_keys = {}` once; every call of `_map` (from `aggregate`,
+the wrappers and `groups()`) registers into that same dict, which is never reset.  The value map
+`column_value_map` and `aggregated_data` are locals of `aggregate` and start empty on every call
+(group_by.py:124-125).  The state of the object between calls is therefore the insertion-ordered
+list of registered keys. -/
+
+/-- `if group_key not in self._group_keys: self._group_keys[group_key] = …` over the keys `xs`,
+starting from the already registered keys `seen`. -/
+def register {α : Type} [DecidableEq α] (seen xs : List α) : List α :=
+  xs.foldl (fun seen x => if x ∈ seen then seen else seen ++ [x]) seen
+
+/-- One call on a `GroupBy` object. -/
+inductive Op where
+  /-- `aggregate(reqs)`, and through it `min/max/sum/avg/count` -/
+  | aggregate (reqs : List Req)
+  /-- `groups()` -/
+  | groups
+  deriving Repr
+
+inductive Out (κ : Type) where
+  | table (t : List (κ × List Agg))
+  | keys (ks : List κ)
+  deriving Repr
+
+/-- One call on an object whose `_group_keys` holds `st`: the new `_group_keys` and the result.
+`aggregate` walks the groups of its own fresh `column_value_map` and only looks their key values up
+in `_group_keys` (always present, and equal to the key itself); `groups()` returns every registered
+key. -/
+def stepS (keyOf : ρ → κ) (cell : ρ → String → Option Int) (rows : List ρ) (st : List κ) :
+    Op → List κ × Out κ
+  | .aggregate reqs => (register st (rows.map keyOf), .table (aggregate keyOf cell rows reqs))
+  | .groups =>
+    let st' := register st ((emit keyOf (fun _ _ => some 0) ["*"] rows).map (·.1))
+    (st', .keys st')
+
+/-- A sequence of calls on one object, oldest first. -/
+def runS (keyOf : ρ → κ) (cell : ρ → String → Option Int) (rows : List ρ) :
+    List κ → List Op → List (Out κ)
+  | _, [] => []
+  | st, op :: ops =>
+    (stepS keyOf cell rows st op).2 :: runS keyOf cell rows (stepS keyOf cell rows st op).1 ops
+
 end Core
 
 /-! ### Frames of `PyVal` -/
@@ -166,6 +210,14 @@ def dictSet {β : Type} (d : List (String × β)) (k : String) (v : β) : List (
 def dictOf {β : Type} (kvs : List (String × β)) : List (String × β) :=
   kvs.foldl (fun d kv => dictSet d kv.1 kv.2) []
 
+/-- `d.get(k)` -/
+def dictGet {β : Type} (d : List (String × β)) (k : String) : Option β :=
+  (d.find? fun kv => kv.1 = k).map (·.2)
+
+/-- The value most recently assigned under `k` in a sequence of assignments (specification side). -/
+def lastAssigned {β : Type} (kvs : List (String × β)) (k : String) : Option β :=
+  kvs.foldl (fun r kv => if kv.1 = k then some kv.2 else r) none
+
 def Agg.toPyVal : Agg → PyVal
   | .null => .none
   | .int i => .int i
@@ -203,5 +255,21 @@ def runGroups (fr : Frame) (keyCols : List String) : Except Err (List String × 
   | some idx =>
     .ok ((dictOf (keyCols.map fun c => (c, ()))).map (·.1),
          (groupsOf (keyAt idx) fr.rows).map fun k => (dictOf (keyCols.zip k)).map (·.2))
+
+/-- A sequence of calls on the one object `df.group_by(keyCols)`, each result as
+(column names, rows). -/
+def runSeq (fr : Frame) (keyCols : List String) (ops : List Op) :
+    Except Err (List (List String × List (List PyVal))) :=
+  match keyCols.mapM (fun c => index c fr.columns) with
+  | none => .error .valueError
+  | some idx =>
+    .ok ((ops.zip (runS (keyAt idx) (cellOf fr.columns) fr.rows [] ops)).map fun oo =>
+      match oo with
+      | (.aggregate reqs, .table t) =>
+        (header keyCols reqs, t.map fun ka => resultRow keyCols reqs ka.1 ka.2)
+      | (_, .keys ks) =>
+        ((dictOf (keyCols.map fun c => (c, ()))).map (·.1),
+         ks.map fun k => (dictOf (keyCols.zip k)).map (·.2))
+      | (.groups, .table _) => ([], []))
 
 end GroupBy
